@@ -11,8 +11,14 @@ def gen(rng, tier, n):
         udpmaxq = rng.choice([0, 0, 1, 2])
         steps = []
         tok = 0
-        shape = rng.choice(["idle-reuse", "busy-reuse", "late-round-reuse", "late-round-reuse", "fresh", "mixed", "mixed", "slow-callback", "slow-callback", "wait-recheck"])
+        shape = rng.choice(["idle-reuse", "busy-reuse", "late-round-reuse", "late-round-reuse", "fresh", "mixed", "mixed", "slow-callback", "slow-callback", "wait-recheck", "long-wait"])
         nq = rng.randint(1, 4)
+        if i < 3:
+            shape = "long-wait"          # one per backend in every run
+        elif i < 6:
+            shape = "wait-recheck"
+        elif i < 9:
+            shape = "slow-callback"
         if shape == "idle-reuse":
             steps += ["q:%d:ans%d.example" % (tok, tok), "settle", "sleep:%d" % rng.choice([20, 60])]
             tok += 1
@@ -51,6 +57,13 @@ def gen(rng, tier, n):
             timeout = rng.choice([250, 300])
             steps += ["qc:%d:sil%d.example:%d:sil%d.example" % (tok, tok, tok + 1, tok + 1), "bgwait:%d" % rng.choice([3000, 5000])]
             tok += 2
+        elif shape == "long-wait":
+            # a deadline more than a second away: the backend's conversion of the millisecond
+            # timeout to its own unit (timeval / timespec / int) has a whole-seconds part
+            tries = 1
+            timeout = rng.choice([1100, 1500, 2000])
+            steps += ["q:%d:sil%d.example" % (tok, tok)]
+            tok += 1
         elif shape == "fresh":
             steps += ["q:%d:sil%d.example" % (tok, tok)]
             tok += 1
